@@ -21,7 +21,7 @@ REQUIRED_MONITORS = ['oracle:lines', 'oracle:tree-from-indent', 'oracle:tree-equ
 N = {'quick': 2500, 'thorough': 19000}
 SYNTAXES = ['haml', 'pug', 'slim']
 NAMES = ['div', 'p', 'span', 'ul', 'li', 'section', 'x-y', 'table', 'tr', 'a2', 'h1', 'em', 'tbody', 'ol', 'article', 'ns:t', 'b']
-TEXTS = ['t1', 'hello world', 'l1\nl2', 'a\nbb\nccc', 'x', 'one\ntwo three\n4']
+TEXTS = ['t1', 'hello world', 'l1\nl2', 'a\nbb\nccc', 'x', 'one\ntwo three\n4', 'one\n\nthree', 'a\n\n\nb', 'x\n\ny z\n\nw']
 
 
 def describe(tier):
@@ -153,15 +153,10 @@ def check_lines(out, exp, syntax, indent):
                     return 'output ends inside the text of %r' % e['name']
                 l2 = lines[li]
                 li += 1
-                k = 0
-                while l2.startswith(indent):
-                    l2 = l2[len(indent):]
-                    k += 1
-                if k != e['depth'] + 1:
-                    return 'line %d: text line indentation %d, expected %d' % (li - 1, k, e['depth'] + 1)
-                want = x.ljust(width) + ' |' if syntax == 'haml' else '| ' + x
-                if l2 != want:
-                    return 'line %d: text line %r, expected %r' % (li - 1, l2, want)
+                # the whole line is compared: a text line may itself begin with blanks (padding of an empty haml line)
+                want = indent * (e['depth'] + 1) + (x.ljust(width) + ' |' if syntax == 'haml' else '| ' + x)
+                if l2 != want and not (syntax != 'haml' and x == '' and l2 == want.rstrip(' ')):
+                    return 'line %d: text line %r, expected %r (depth %d)' % (li - 1, l2, want, e['depth'] + 1)
     if li != len(lines):
         return 'extra output lines from %d: %r' % (li, lines[li:li + 2])
     return None
@@ -182,8 +177,8 @@ def tree_from_indent(out, syntax, indent):
             k += 1
         if not body.strip():
             raise outparse.OutParseError('blank line')
-        if (syntax != 'haml' and body.startswith('| ')) or (syntax == 'haml' and body.endswith(' |')):
-            continue        # line of a multi-line text
+        if (syntax != 'haml' and body.startswith('| ')) or (syntax == 'haml' and body.endswith(' |')) or body.rstrip(' ') == '|':
+            continue        # line of a multi-line text (an empty text line is the bare marker; its haml padding may look like indentation)
         if syntax == 'haml':
             name = RE_NAME.match(body[1:]).group(0) if body.startswith('%') else 'div'
         else:
